@@ -46,6 +46,68 @@ def ball_query(ctx, rule, qn, p, q, size_term, tag):
               bad="the query uses p=%s: windows are not squares" % (show(pn) if isinstance(pn, tuple) else "2 (default)"), fn=qn)
 
 
+def _handwritten_unravel(ctx, qn, call, idx, shape):
+    """`call` = helper(idx, shape) in some argument order, helper = qn (a package function).  Judges every return path of the helper as an
+    unravel of C-order flat indices to `shape`: np.unravel_index(i, s) is right; for a shape known to have one axis `(i,)` is right; for a shape known
+    to have two axes the pair (i // s[1], i % s[1]) (or divmod(i, s[1])) is right and the same pair taken with s[0] - the number of rows - is a
+    positive contradiction (it indexes an array of the transposed shape).  Returns (verdict, bad text) or None when the call is not of that form."""
+    f = ctx.pkg.functions[qn]
+    params = [a for a in f.params]
+    args = list(call[2])
+    if call[3] or len(args) != 2 or len(params) != 2 or idx not in [Q.unwrap(a, int_ok=True) for a in args] or shape not in args:
+        return None
+    pi = params[[Q.unwrap(a, int_ok=True) for a in args].index(idx)]
+    ps_ = params[args.index(shape)]
+    I, S = ("param", pi), ("param", ps_)
+
+    def is_idx(t):
+        return Q.unwrap(t, int_ok=True) == I
+
+    def axis(t):        # s[k] -> k
+        return t[2][1] if t[0] == "sub" and t[1] == S and is_const(t[2]) and is_int(t[2]) else None
+
+    verdict, bad = True, None
+    seen = 0
+    for p in ctx.paths(qn):
+        if p.exit != "return":
+            continue
+        seen += 1
+        v = p.value
+        if v[0] == "call" and callee(v) == "builtins.tuple" and len(v[2]) == 1:
+            v = v[2][0]
+        if v[0] == "tuple" and len(v[1]) == 1 and v[1][0][0] == "star":       # tuple(x) of a non-literal is the open sequence (*x,)
+            v = v[1][0][1]
+        nd = None
+        for c, tv in p.conds:
+            if c[0] == "cmp" and c[1] == "==" and c[2][0] == "call" and callee(c[2]) == "builtins.len" and c[2][2] == (S,) and is_const(c[3]) and tv:
+                nd = c[3][1]
+        k = None
+        if v[0] == "call" and callee(v) == "numpy.unravel_index":
+            ok = is_idx(Q.arg(ctx, v, "indices")) and Q.arg(ctx, v, "shape") == S
+            verdict = verdict if ok else (None if verdict else verdict)
+            continue
+        if v[0] == "tuple" and len(v[1]) == 1 and is_idx(v[1][0]) and nd == 1:
+            continue
+        if v[0] == "call" and callee(v) in ("numpy.divmod", "builtins.divmod") and len(v[2]) == 2 and is_idx(v[2][0]):
+            k = axis(v[2][1])
+        elif v[0] == "tuple" and len(v[1]) == 2 and all(x[0] == "binop" for x in v[1]) and v[1][0][1] == "//" and v[1][1][1] == "%" and \
+                is_idx(v[1][0][2]) and is_idx(v[1][1][2]) and v[1][0][3] == v[1][1][3]:
+            k = axis(v[1][0][3])
+        if k is not None and nd == 2:
+            if k in (1, -1):
+                continue
+            if k in (0, -2):
+                verdict = False
+                bad = ("%s splits the C-order flat indices of a 2-D input by shape[0] (the number of rows) instead of shape[1] (the row length): the pair "
+                       "indexes an array of the transposed shape" % qn)
+                continue
+        if verdict:
+            verdict = None
+    if not seen:
+        return None
+    return verdict, bad
+
+
 def check(ctx):
     K.point_order_contract(ctx, "R3")     # indices returned by the tree are unravelled in C order: the tree must number the points in C order
     K.roles_rule(ctx, "R2", [RW, EW], with_return=True, skip_kinds=("arith",), require={RW: [{"tree-query"}, {"region-arg"}], EW: [{"tree-query"}]})
@@ -117,6 +179,7 @@ def check(ctx):
         # indices
         v = p.value
         ok_shape = ok_unr = ok_fill = None
+        bad_unr = None
         if v[0] == "tuple" and len(v[1]) == 2:
             cen, ind = v[1]
             ctx.check("R3", "%s|returns-centres-first|%s" % (RW, tag), True if cen == g else (False if ind == g else None), "returns (centres, indices)", bad="returns (indices, centres)", fn=RW)
@@ -137,8 +200,16 @@ def check(ctx):
                         uidx = Q.arg(ctx, u, "indices")
                         src = Q.unwrap(uidx, int_ok=True) if isinstance(uidx, tuple) else None
                         ctx.check("R3", "%s|unravels-each-window|%s" % (RW, tag), True if src is not None and src == ("elem", q, val[4]) else None, "each window's own index list is unravelled", fn=RW)
+                    elif val[0] == "comp" and val[3] == q and val[2][0] == "call" and str(callee(val[2]) or "").startswith(ctx.pkg.name + ".") and callee(val[2]) in ctx.pkg.functions:
+                        # the unravelling moved into a package helper the rules cannot name: judge the helper's own return paths
+                        hv = _handwritten_unravel(ctx, callee(val[2]), val[2], ("elem", q, val[4]), ("attr", Q.sub(CHK, 0), "shape"))
+                        if hv is not None:
+                            ok_fill = True if flat_c else (False if flat_f else None)
+                            ok_unr = hv[0]
+                            bad_unr = hv[1]
+                            ctx.check("R3", "%s|unravels-each-window|%s" % (RW, tag), True, "each window's own index list is unravelled", fn=RW)
         ctx.check("R3", "%s|indices-array-shape|%s" % (RW, tag), ok_shape, "the index array has the shape of the window centres", bad="the index array is shaped like the data, not like the centres", fn=RW)
-        ctx.check("R3", "%s|unravel-shape|%s" % (RW, tag), ok_unr, "1-D indices are unravelled to the shape of the input coordinates", bad="indices are unravelled with the centres' shape", fn=RW)
+        ctx.check("R3", "%s|unravel-shape|%s" % (RW, tag), ok_unr, "1-D indices are unravelled to the shape of the input coordinates", bad=bad_unr or "indices are unravelled with the centres' shape", fn=RW)
         ctx.check("R3", "%s|fill-order|%s" % (RW, tag), ok_fill, "windows are stored through a C-order ravel, matching the C-order ravel of the centres", bad="windows are stored in a non-C order", fn=RW)
     if n < 2:
         ctx.add("R1", RW + "|paths", "UNDECIDED", "expected return paths for region given / not given", fn=RW)
